@@ -438,8 +438,20 @@ CASES.append(explicit_quantity_case())
 from props import C13 as _C13
 CASES.append(_C13.species_state_case("dict:e0,default", 2, "grid"))
 CASES.append(_C13.species_state_case("dict:e0,default", 2, "graph"))
+# ... and the per-entry setters and getters: a bare number is read in the system's own units system, whatever units the state
+# array is held in (C13's accessor cases)
+CASES.append(_C13.accessor_case("index", "index"))
+CASES.append(_C13.accessor_case("label", "tuple", given_state=False))
 
 # exported ODE right-hand side in a requested units system: C01's make_dxdtf cases
 from props import C01 as _C01
 for _s, _p in (((1, 1), (1, 0)), ((2, 0), (0, 1))):
     CASES.append(_C01.dxdtf_case(_s, _p))
+
+
+def LATE_CASES():
+    """unit independence through coarse-graining: the aggregated state keeps the units it was computed in when it is handed to
+    the coarse-grained system (system and network stated in different quantity units): two of C16's cases (C16 imports this
+    module, hence listed late)"""
+    from props import C16 as _C16
+    return [_C16.cg_case((2, 1, 1), 0, 0), _C16.cg_case((1, 1, 3), 0, 1)]
